@@ -43,10 +43,11 @@ func (c14) Assumptions() []string {
 func genReplicas(r *Rng, n int) []Replica {
 	hist := canonicalReplica
 	hist.History = true
-	reps := []Replica{canonicalReplica, {Mode: "reverse", Clock: 1_500_000_123, Rand: 99}, hist}
+	reps := []Replica{canonicalReplica, {Mode: "reverse", Clock: 1_500_000_123, Rand: 99, Sched: r.Uint64() | 1, Procs: 1, Preempt: 10}, hist}
 	n++
 	for i := 2; i < n; i++ {
-		rep := Replica{Mode: "random", Seed: r.Uint64(), Clock: 1_600_000_000 + int64(r.Intn(1_000_000)), Rand: int64(r.Uint64() >> 1)}
+		rep := Replica{Mode: "random", Seed: r.Uint64(), Clock: 1_600_000_000 + int64(r.Intn(1_000_000)), Rand: int64(r.Uint64() >> 1),
+			Sched: r.Uint64() | 1, Procs: Pick(r, []int{1, 4, 16}), Preempt: Pick(r, []int{0, 20, 50})}
 		if i == 3 {
 			rep.Mode, rep.Rot = "rotate", 1+r.Intn(3)
 		}
@@ -196,6 +197,11 @@ func execC14(sc *Scenario, rep Replica) c14Exec {
 	}
 	simrt.SetOrder(rep.Policy())
 	simrt.SetClock(&simrt.Clock{Base: timeUnix(rep.Clock)}, rep.Rand)
+	procs := rep.Procs
+	if procs == 0 {
+		procs = 2
+	}
+	simrt.SetSchedPolicy(&simrt.SchedPolicy{Seed: rep.Sched, PreemptPct: rep.Preempt, Procs: procs})
 	if rep.History {
 		c14Prelude(w, sc)
 	}
@@ -408,6 +414,13 @@ func c14SingleSite(sc *Scenario, rep Replica) (string, Replica, bool) {
 }
 
 func (p c14) signature(sc *Scenario, ri, d int) string {
+	if rep := sc.Replicas[ri]; rep.Sched != 0 {
+		scand := canonicalReplica
+		scand.Sched, scand.Procs, scand.Preempt = rep.Sched, rep.Procs, rep.Preempt
+		if dd, _, _, _ := c14Diverges(sc, scand); dd >= 0 {
+			return "goroutine-schedule:" + sc.Family
+		}
+	}
 	if sc.Replicas[ri].History {
 		hcand := canonicalReplica
 		hcand.History = true
@@ -439,7 +452,12 @@ func (p c14) minimise(orig *Scenario, ri, d int, v *Violation) *Violation {
 	cand.Clock, cand.Rand = rep.Clock, rep.Rand
 	hcand := canonicalReplica
 	hcand.History = true
-	if dd, a, b, _ := c14Diverges(sc, hcand); rep.History && dd >= 0 {
+	scand := canonicalReplica
+	scand.Sched, scand.Procs, scand.Preempt = rep.Sched, rep.Procs, rep.Preempt
+	if dd, _, _, _ := c14Diverges(sc, scand); rep.Sched != 0 && dd >= 0 {
+		sig = "goroutine-schedule:" + sc.Family
+		sc.Replicas[1] = scand
+	} else if dd, a, b, _ := c14Diverges(sc, hcand); rep.History && dd >= 0 {
 		_, _ = a, b
 		sig = "earlier-history:" + sc.Family
 		sc.Replicas[1] = hcand
